@@ -348,3 +348,392 @@ def _tag_of(e, env):
         a, b = _tag_of(e.body, env), _tag_of(e.orelse, env)
         return a if a == b else None
     return None
+
+
+# ====================================================================== R33 / R34
+# Layout algebra: a symbolic array is described by, for every array axis k, which grid
+# axis it holds and whether its coordinates increase along it.  `np.transpose(x)` (no axes)
+# reverses the axis order, `np.flip(x, axis=i)` toggles the direction of the grid axis that
+# currently sits at array position i.  This decides to_canonical / from_canonical for every
+# layout (1-3 D, both axis orders, every combination of axis directions) without numbers.
+from ..absbase import FinamInterp, Logger, Order  # noqa: E402
+from ..interp import Closure, Obj, Raised, Sym, Undecided  # noqa: E402
+
+
+class Layout:
+    def __init__(self, axes):
+        self.axes = tuple(axes)  # ((grid_axis, increasing), ...)
+
+    def __eq__(self, o):
+        return isinstance(o, Layout) and self.axes == o.axes
+
+    def __hash__(self):
+        return hash(self.axes)
+
+    def __repr__(self):
+        return "[" + ",".join(f"{'xyz'[g]}{'+' if inc else '-'}" for g, inc in self.axes) + "]"
+
+
+class _LayoutInterp(FinamInterp):
+    def ext_call(self, name, args, kwargs, node):
+        short = name.split(".")[-1]
+        if short == "transpose" and len(args) == 1 and not kwargs and isinstance(args[0], Layout):
+            return Layout(reversed(args[0].axes))
+        if short == "transpose" and isinstance(args[0], Layout):
+            ax = kwargs.get("axes", args[1] if len(args) > 1 else None)
+            if isinstance(ax, (list, tuple)) and all(isinstance(i, int) for i in ax):
+                return Layout(args[0].axes[i] for i in ax)
+        if short == "flip" and isinstance(args[0], Layout):
+            ax = kwargs.get("axis", args[1] if len(args) > 1 else None)
+            if isinstance(ax, int):
+                a = list(args[0].axes)
+                g, inc = a[ax]
+                a[ax] = (g, not inc)
+                return Layout(a)
+            raise AnalysisError(f"np.flip with symbolic axis {ax!r}")
+        if short == "ndim" and isinstance(args[0], Layout):
+            return len(args[0].axes)
+        if short == "shape" and isinstance(args[0], Layout):
+            return tuple(Sym("n", g) for g, _ in args[0].axes)
+        if short == "array_equal":
+            a, b = args
+            return list(a) == list(b)
+        return super().ext_call(name, args, kwargs, node)
+
+
+def _grid_obj(repo, dim, rev, inc):
+    c = repo.cls("StructuredGrid")
+    g = Obj(cls=c, label=f"grid{dim}{'r' if rev else ''}")
+    shape = tuple(Sym("n", gax) for gax in (range(dim)[::-1] if rev else range(dim)))
+    g.fields.update(axes_reversed=rev, axes_increase=list(inc), data_shape=shape, dim=dim)
+    return g
+
+
+def _data_layout(dim, rev, inc):
+    order = list(range(dim))[::-1] if rev else list(range(dim))
+    return Layout((gax, inc[gax]) for gax in order)
+
+
+def r33_mirror(repo, sink):
+    import itertools
+    c = repo.cls("StructuredGrid")
+    tc = repo.resolve(c, "to_canonical", "method")
+    fc = repo.resolve(c, "from_canonical", "method")
+    if tc is None or fc is None:
+        raise AnalysisError("StructuredGrid.to_canonical/from_canonical not found")
+    cases, w_to, w_from, w_rt = 0, None, None, None
+    for dim in (1, 2, 3):
+        for rev in (False, True):
+            for inc in itertools.product((True, False), repeat=dim):
+                cases += 1
+                g = _grid_obj(repo, dim, rev, inc)
+                canon = Layout((gax, True) for gax in range(dim))
+                data = _data_layout(dim, rev, inc)
+                it = _LayoutInterp(repo)
+                tag = f"{dim}D, axes_reversed={rev}, axes_increase={list(inc)}"
+                try:
+                    got = it.run(tc, [data], self_obj=g)
+                    if got != canon:
+                        w_to = w_to or f"{tag}: to_canonical turns data layout {data} into {got}, canonical is {canon}"
+                    back = it.run(fc, [canon], self_obj=g)
+                    if back != data:
+                        w_from = w_from or f"{tag}: from_canonical turns {canon} into {back}, the grid's data layout is {data}"
+                    rt = it.run(fc, [got], self_obj=g) if isinstance(got, Layout) else None
+                    if rt != data:
+                        w_rt = w_rt or f"{tag}: from_canonical(to_canonical(x)) has layout {rt}, not the original {data}"
+                except Raised as r:
+                    w_to = w_to or f"{tag}: raises {r.name} on correctly shaped data"
+                except Undecided as u:
+                    raise AnalysisError(f"to/from_canonical: undecidable {u}") from u
+    sink.check(w_to is None, "R33", "canonical:to", tc, ok=f"{cases} layouts: canonical data is indexed x,y,z along increasing coordinates", bad=w_to or "")
+    sink.check(w_from is None, "R33", "canonical:from", fc, ok=f"{cases} layouts: from_canonical restores the grid's own layout", bad=w_from or "")
+    sink.check(w_rt is None, "R33", "canonical:round-trip", fc, ok="from_canonical o to_canonical is the identity for every layout", bad=w_rt or "")
+    sink.floor("R33", "layouts", cases, 28)
+    # wrong shape is refused
+    g = _grid_obj(repo, 2, False, (True, True))
+    it = _LayoutInterp(repo)
+    bad_data = Layout(((1, True), (0, True)))
+    try:
+        it.run(tc, [bad_data], self_obj=g)
+        sink.bad("R33", "canonical:shape-check", tc, "to_canonical accepts data whose shape is that of the transposed layout")
+    except Raised as r:
+        sink.check(r.name == "ValueError", "R33", "canonical:shape-check", tc, ok="wrongly shaped data raises ValueError", bad=f"raises {r.name}")
+    # GridBase defaults are the identity
+    gb = repo.cls("GridBase")
+    for nm in ("to_canonical", "from_canonical"):
+        f = repo.resolve(gb, nm, "method")
+        rets = [r for r in fn_walk(f.node) if isinstance(r, ast.Return)]
+        sink.check(len(rets) == 1 and isinstance(rets[0].value, ast.Name) and rets[0].value.id == f.params[0], "R33", f"identity:GridBase.{nm}", f,
+                   ok="unstructured / no-grid data is passed through", bad=f"GridBase.{nm} is not the identity")
+
+
+def r34_transdir(repo, sink):
+    """get_transform_to: None only for equal layouts, else other.from_canonical(self.to_canonical(.));
+    Input.exchange_info asks the *source* grid for the transform to the *merged input* grid."""
+    import itertools
+    c = repo.cls("StructuredGrid")
+    gt = repo.resolve(c, "get_transform_to", "method")
+    worst, cases = None, 0
+    for dim in (1, 2):
+        for (r1, r2) in itertools.product((False, True), repeat=2):
+            for inc1 in itertools.product((True, False), repeat=dim):
+                for inc2 in itertools.product((True, False), repeat=dim):
+                    cases += 1
+                    g1, g2 = _grid_obj(repo, dim, r1, inc1), _grid_obj(repo, dim, r2, inc2)
+                    it = _TransInterp(repo, same=(r1 == r2 and inc1 == inc2))
+                    try:
+                        tr = it.run(gt, [g2], self_obj=g1)
+                    except (Raised, Undecided) as exc:
+                        worst = worst or f"get_transform_to raises {exc} for compatible grids"
+                        continue
+                    d1, d2 = _data_layout(dim, r1, inc1), _data_layout(dim, r2, inc2)
+                    if tr is None:
+                        if d1 != d2:
+                            worst = worst or f"no transform between different layouts {d1} -> {d2}"
+                        continue
+                    try:
+                        got = it.call(tr, [d1], {}, None, None)
+                    except Raised as r:
+                        worst = worst or f"transform {d1} -> {d2} raises {r.name}"
+                        continue
+                    if got != d2:
+                        worst = worst or f"transform of source layout {d1} yields {got}, the target grid's layout is {d2}"
+    sink.check(worst is None, "R34", "transform:layouts", gt, ok=f"{cases} layout pairs: transform maps the source layout onto the target layout; equal layouts pass through", bad=worst or "")
+    # incompatible grids are refused
+    it = _TransInterp(repo, same=False, compatible=False)
+    try:
+        it.run(gt, [_grid_obj(repo, 1, False, (True,))], self_obj=_grid_obj(repo, 1, False, (True,)))
+        sink.bad("R34", "transform:incompatible", gt, "get_transform_to returns a transform for incompatible grids")
+    except Raised as r:
+        sink.check(r.name == "ValueError", "R34", "transform:incompatible", gt, ok="incompatible grids raise ValueError", bad=f"raises {r.name}")
+    # direction at the call site
+    ex = repo.method("Input", "exchange_info")
+    cs = [x for x in calls(ex.node, "get_transform_to")]
+    ok = False
+    if len(cs) == 1 and isinstance(cs[0].func, ast.Attribute):
+        recv, arg = U(cs[0].func.value), U(cs[0].args[0]) if cs[0].args else ""
+        src_var = None
+        for n in fn_walk(ex.node):
+            if isinstance(n, ast.Assign) and isinstance(n.value, ast.Call) and call_name(n.value) == "get_info":
+                src_var = n.targets[0].id if isinstance(n.targets[0], ast.Name) else None
+        ok = src_var is not None and recv == f"{src_var}.grid" and arg == "self._input_info.grid"
+        st = cs[0]
+        while not isinstance(st, ast.stmt):
+            st = st._parent
+        ok = ok and isinstance(st, ast.Assign) and any(self_attr(t) == "_transform" for t in st.targets)
+    sink.check(ok, "R34", "transform:direction", ex, ok="self._transform = <delivered grid>.get_transform_to(<merged input grid>)",
+               bad="Input.exchange_info does not take the transform from the delivered (source) grid to its own merged grid")
+    # merged info: consumer's time, grid and meta win where set (use_none=False)
+    cw = [x for x in calls(ex.node, "copy_with")]
+    ok = False
+    if cw:
+        kws = {k.arg: U(k.value) for k in cw[0].keywords}
+        star = [U(k.value) for k in cw[0].keywords if k.arg is None]
+        ok = kws.get("use_none") == "False" and kws.get("time") == "info.time" and kws.get("grid") == "info.grid" and "info.meta" in star
+        ok = ok and isinstance(cw[0].func, ast.Attribute) and U(cw[0].func.value).endswith("_info") is not None
+    sink.check(ok, "R34", "merge:fields", ex, ok="input info = delivered info overridden by the consumer's set time / grid / meta",
+               bad="Input.exchange_info does not merge delivered and requested info field by field (use_none=False, time, grid, **meta)")
+
+
+class _TransInterp(_LayoutInterp):
+    def __init__(self, repo, same, compatible=True):
+        super().__init__(repo)
+        self.same, self.compatible = same, compatible
+
+    def call_hook(self, fv, args, kwargs, node, mod):
+        if isinstance(fv, Closure) and getattr(fv.func, "name", "") == "compatible_with":
+            return self.compatible
+        return super().call_hook(fv, args, kwargs, node, mod)
+
+    def compare(self, op, left, right, node):
+        if isinstance(left, Obj) and isinstance(right, Obj) and left.label.startswith("grid") and right.label.startswith("grid") \
+                and isinstance(op, (ast.Eq, ast.NotEq)):
+            # the class's own __eq__ decides (layout-sensitive equality)
+            eqm = self.repo.resolve(left.cls, "__eq__", "method")
+            if eqm is None:
+                raise AnalysisError("StructuredGrid.__eq__ not found")
+            r = self.truth(self.call_func(Closure(eqm, self_obj=left), [right], {}, node), node)
+            return r if isinstance(op, ast.Eq) else not r
+        return super().compare(op, left, right, node)
+
+    def ext_call(self, name, args, kwargs, node):
+        short = name.split(".")[-1]
+        if short == "all" and isinstance(args[0], (list, tuple)):
+            return all(self.truth(x, node) for x in args[0])
+        if short == "any" and isinstance(args[0], (list, tuple)):
+            return any(self.truth(x, node) for x in args[0])
+        return super().ext_call(name, args, kwargs, node)
+
+
+# =========================================================================== R32
+def r32_gridsib(repo, sink):
+    c = repo.cls("StructuredGrid")
+
+    def getter(n):
+        g = repo.resolve(c, n, "getter")
+        if g is None:
+            raise AnalysisError(f"StructuredGrid.{n} not found")
+        return g
+
+    def kw(call, name):
+        return next((U(k.value) for k in call.keywords if k.arg == name), None)
+
+    pts, cells, cc = getter("points"), getter("cells"), getter("cell_centers")
+    calls_ = {}
+    for g, fn in ((pts, "gen_points"), (cc, "gen_points"), (cells, "gen_cells")):
+        cs = [x for x in calls(g.node, fn)]
+        if len(cs) != 1:
+            sink.unknown("R32", f"sibling:{g.name}", g, f"{g.name} does not call {fn} exactly once")
+            return
+        calls_[g.name] = cs[0]
+    orders = {n: kw(x, "order") for n, x in calls_.items()}
+    want = "point_order(self.order, self.axes_reversed)"
+    sink.check(len(set(orders.values())) == 1 and orders["points"] == want, "R32", "sibling:order", pts,
+               ok="points, cells and cell_centers are generated in the same point order",
+               bad=f"points / cells / cell_centers disagree on the point order: {orders}")
+    incs = {n: kw(calls_[n], "axes_increase") for n in ("points", "cell_centers")}
+    sink.check(incs["points"] == incs["cell_centers"] == "self.axes_increase", "R32", "sibling:axes_increase", pts,
+               ok="points and cell centres use the same axis directions", bad=f"axis directions differ: {incs}")
+    axes = {"points": kw(calls_["points"], "axes"), "cell_centers": kw(calls_["cell_centers"], "axes"), "cells": kw(calls_["cells"], "dims")}
+    sink.check(axes == {"points": "self.axes", "cell_centers": "self.cell_axes", "cells": "self.dims"}, "R32", "sibling:sources", pts,
+               ok="points from axes, centres from cell_axes, cells from dims", bad=f"generator inputs are {axes}")
+    ds, da = getter("data_shape"), getter("data_axes")
+    t_ds, t_da = U(ds.node), U(da.node)
+    ok = ("self.dims[::-1] if self.axes_reversed else self.dims" in t_ds and "self.data_location == Location.CELLS" in t_ds
+          and "range(self.dim)[::-1] if self.axes_reversed else range(self.dim)" in t_da and "self.data_location == Location.CELLS" in t_da
+          and "self.cell_axes if self.data_location == Location.CELLS else self.axes" in t_da
+          and "np.maximum(dims - 1, 1) if self.data_location == Location.CELLS else dims" in t_ds)
+    sink.check(ok, "R32", "sibling:data_shape-data_axes", ds,
+               ok="data_shape and data_axes reverse under the same condition and pick cells/points under the same data_location test",
+               bad="data_shape and data_axes no longer agree on axis reversal / data location")
+    ca = getter("cell_axes")
+    sink.check("(ax[:-1] + ax[1:]) / 2" in U(ca.node), "R32", "cell_axes-midpoints", ca, ok="cell axes are midpoints of neighbouring nodes",
+               bad="cell_axes is not the midpoint of neighbouring nodes")
+    dp = repo.resolve(repo.cls("Grid"), "data_points", "getter")
+    t = U(dp.node)
+    sink.check("self.data_location == Location.POINTS" in t and "return self.points" in t and "return self.cell_centers" in t, "R32", "data_points", dp,
+               ok="data_points follows the current data_location", bad="data_points does not select points / cell centres by data_location")
+    # both data_location setters validate against valid_locations
+    n = 0
+    for k in repo.subclasses(repo.cls("Grid")):
+        st = k.setters.get("data_location")
+        if st is None or any("abstractmethod" in U(d) for d in st.node.decorator_list):
+            continue
+        n += 1
+        sink.check("_check_location(self, data_location)" in U(st.node), "R32", f"location-checked:{k.name}", st,
+                   ok="data_location is validated against valid_locations", bad=f"{k.name}.data_location setter skips the valid_locations check")
+    sink.floor("R32", "data_location setters", n, 2)
+    cl = repo.func("src/finam/data/grid_spec.py", "_check_location")
+    sink.check("valid_locations" in U(cl.node) and "raise" in U(cl.node), "R32", "check-location", cl, ok="_check_location raises for invalid locations", bad="_check_location does not refuse invalid locations")
+    # casts forward every layout field
+    for cname, meth, fields in (
+        ("RectilinearGrid", "to_unstructured", ("points", "cells", "cell_types", "data_location", "order", "axes_attributes", "axes_names", "crs")),
+        ("UniformGrid", "to_rectilinear", ("axes", "data_location", "order", "axes_reversed", "axes_attributes", "axes_names", "crs")),
+    ):
+        if not repo.has_cls(cname):
+            continue
+        m = repo.resolve(repo.cls(cname), meth, "method")
+        if m is None:
+            continue
+        ctor = [x for x in calls(m.node) if isinstance(x.func, ast.Name) and x.func.id[0].isupper()]
+        got = {k.arg: U(k.value) for x in ctor for k in x.keywords}
+        missing = [f for f in fields if got.get(f) != f"self.{f}"]
+        sink.check(not missing and bool(ctor), "R32", f"cast:{cname}.{meth}", m, ok="cast forwards every layout field", bad=f"{cname}.{meth} does not forward {missing}")
+
+
+# ========================================================================== R32b
+# Index-space typing: an index array has a type (space, order of the positions it is
+# indexed by, numbering of the ids it holds).  order_map(shape, of=A, to=B) is
+# arange.reshape(shape, A).reshape(-1, B): indexed by B-positions, holding A-ids.
+# table[map] re-orders rows (the map's ids must use the table's row numbering),
+# map[table] re-labels ids (the map must be indexed by the table's id numbering).
+class _IdxMap:
+    def __init__(self, space, index_order, value_order):
+        self.space, self.index_order, self.value_order = space, index_order, value_order
+
+    def __repr__(self):
+        return f"map<{self.space}: {self.index_order}-positions -> {self.value_order}-ids>"
+
+
+class _IdxTable:
+    def __init__(self, row_order, id_order):
+        self.row_order, self.id_order = row_order, id_order
+
+    def __repr__(self):
+        return f"cells<rows in {self.row_order} order, node ids in {self.id_order} numbering>"
+
+
+class _IdxTypeError(Exception):
+    pass
+
+
+class _IdxInterp(FinamInterp):
+    def call_hook(self, fv, args, kwargs, node, mod):
+        if isinstance(fv, Closure) and getattr(fv.func, "name", "") == "order_map":
+            shape = args[0]
+            of = kwargs.get("of", args[1] if len(args) > 1 else "F")
+            to = kwargs.get("to", args[2] if len(args) > 2 else "C")
+            space = shape.args[0] if isinstance(shape, Sym) and shape.op == "space" else "?"
+            return _IdxMap(space, to, of)
+        return super().call_hook(fv, args, kwargs, node, mod)
+
+    def get_item(self, c, k, node):
+        if isinstance(c, _IdxMap) and isinstance(k, _IdxTable):
+            if c.space != "points":
+                raise _IdxTypeError(f"node ids are re-labelled with a map over the {c.space} index space")
+            if c.index_order != k.id_order:
+                raise _IdxTypeError(f"{c!r} is indexed by {c.index_order}-positions but the cell table holds {k.id_order}-numbered node ids")
+            return _IdxTable(k.row_order, c.value_order)
+        if isinstance(c, _IdxTable) and isinstance(k, _IdxMap):
+            if k.space != "cells":
+                raise _IdxTypeError(f"cell rows are re-ordered with a map over the {k.space} index space")
+            if k.value_order != c.row_order:
+                raise _IdxTypeError(f"{k!r} holds {k.value_order}-ids but the rows of the cell table are in {c.row_order} order")
+            return _IdxTable(k.index_order, c.id_order)
+        return super().get_item(c, k, node)
+
+
+def r32b_indexspace(repo, sink):
+    gt = "src/finam/data/grid_tools.py"
+    om = repo.func(gt, "order_map")
+    # order_map itself: arange(size).reshape(shape, order=of).reshape(-1, order=to)
+    rets = [r for r in fn_walk(om.node) if isinstance(r, ast.Return)]
+    ok = False
+    if len(rets) == 1:
+        t = U(rets[0].value).replace(" ", "")
+        ok = ".reshape(shape,order=of).reshape(-1,order=to)" in t and "arange(size" in t
+    sink.check(ok, "R32", "order_map-definition", om, ok="order_map = arange(size).reshape(shape, of).reshape(-1, to)",
+               bad="order_map no longer reshapes arange(size) from `of` to `to` (of/to swapped or changed)")
+    gc = repo.func(gt, "gen_cells")
+    tails = [n for n in gc.node.body if isinstance(n, ast.If) and "order" in U(n.test) and "'C'" in U(n.test)]
+    if len(tails) != 1:
+        sink.unknown("R32", "gen_cells-reorder", gc, "gen_cells: no `if order == 'C'` re-ordering block")
+        return
+    it = _IdxInterp(repo)
+    env = {"c": _IdxTable("F", "F"), "dims": Sym("space", "points"), "c_dim": Sym("space", "cells"), "__mod__": gc.module, "order": "C",
+           "mesh_dim": 2}
+    try:
+        it.exec_block(tails[0].body, env, gc.module)
+        c = env["c"]
+        ok = isinstance(c, _IdxTable) and c.row_order == "C" and c.id_order == "C"
+        sink.check(ok, "R32", "gen_cells-reorder", gc, ok="C order: node ids re-labelled F->C numbering, rows re-ordered to C order",
+                   bad=f"gen_cells(order='C') yields {c!r}; rows must be in C order with C-numbered node ids")
+    except _IdxTypeError as exc:
+        sink.bad("R32", "gen_cells-reorder", gc, f"index-space mismatch in gen_cells(order='C'): {exc}: cells no longer describe the "
+                 "k-th cell of the data layout (cell centres / cell data permuted for non-square grids)")
+    except (AnalysisError, Undecided, Raised) as exc:
+        sink.unknown("R32", "gen_cells-reorder", gc, f"re-ordering block outside vocabulary: {exc}")
+    # the F-order path must not re-order
+    sink.check(U(tails[0].test).replace(" ", "").startswith("order=='C'"), "R32", "gen_cells-F-untouched", gc,
+               ok="re-ordering only for C order", bad="gen_cells re-orders cells for other orders than C")
+    # gen_points: all three coordinate columns are flattened in the requested order
+    gp = repo.func(gt, "gen_points")
+    rs = [x for x in calls(gp.node, "reshape")]
+    ok = len(rs) == 3 and all({k.arg: U(k.value) for k in x.keywords}.get("order") == "order" for x in rs)
+    cols = sorted(U(x.func.value) for x in rs)
+    sink.check(ok and cols == ["x_id", "y_id", "z_id"], "R32", "gen_points-order", gp, ok="x, y, z index grids are flattened in the same requested order",
+               bad="gen_points flattens the coordinate index grids in different orders")
+    t = U(gp.node)
+    sink.check("points[:, 0] = axes[0][x_id" in t and "points[:, 1] = axes[1][y_id" in t and "points[:, 2] = axes[2][z_id" in t, "R32", "gen_points-columns", gp,
+               ok="column k takes axis k at the k-th index grid", bad="gen_points pairs an axis with another axis' index grid")
+    sink.check("axes[i] = axes[i][::-1]" in t and "if not inc:" in t, "R32", "gen_points-direction", gp, ok="decreasing axes are reversed", bad="gen_points ignores axes_increase")
